@@ -374,19 +374,22 @@ emit("received", ok, type(v))
 emit("refusal done")
 `
 
-const blockedRecvSrc = `local B = B
+const blockedRecvSrc = `local B, W = B, W
+if REATTACH then W:send(7); local ok, v = W:receive(); reattach() end
 emit("before")
 local ok, v = B:receive()
 emit("after receive", ok, v)
 while true do end
 `
-const blockedSelectSrc = `local B = B
+const blockedSelectSrc = `local B, W = B, W
+if REATTACH then W:send(7); local ok, v = W:receive(); reattach() end
 emit("before")
 local i, v, ok = channel.select({"|<-", B})
 emit("after select", i, v, ok)
 while true do end
 `
-const blockedSendSrc = `local B = B
+const blockedSendSrc = `local B, W = B, W
+if REATTACH then W:send(7); local ok, v = W:receive(); reattach() end
 for i = 1, CAP do B:send(i) end
 emit("before")
 B:send(0)
@@ -598,7 +601,15 @@ func (e *Engine) Run(t *core.Tape, cfg *core.Config, st *core.Stats) *core.Viola
 		src := []string{blockedRecvSrc, blockedSelectSrc, blockedSendSrc}[which]
 		tk := newTask(kBlocked, []string{"blocked-receive", "blocked-select", "blocked-send"}[which], src)
 		tk.ctx = hostapi.NewSimContext()
-		globals[tk] = map[string]lua.LValue{"B": lua.LChannel(B.ch), "CAP": lua.LNumber(B.cap)}
+		// one case in three: the task first performs channel operations under its first context, then its host
+		// replaces the context (SetContext in mid-run); the cancellation arrives through the new context
+		re := t.Choose(3) == 0
+		W := addChan(1)
+		globals[tk] = map[string]lua.LValue{"B": lua.LChannel(B.ch), "CAP": lua.LNumber(B.cap), "W": lua.LChannel(W.ch), "REATTACH": lua.LBool(re)}
+		if re {
+			tk.sendVals = append(tk.sendVals, "n:7")
+			st.Probe("blocked_after_context_replaced")
+		}
 		for j := 1; j <= B.cap; j++ {
 			tk.sendVals = append(tk.sendVals, fmt.Sprintf("n:%v", float64(j)))
 		}
@@ -962,7 +973,11 @@ func (sc *sched) loop(t *core.Tape, fail func(string, string, ...interface{}) *c
 			sc.st.Event("ev%d: fire the context of task %d %s while it is parked in its channel operation", sc.events, tk.id, tk.name)
 			sc.st.Fault("cancel_while_blocked")
 			tk.fired = true
-			tk.ctx.Fire()
+			if tk.host != nil && tk.host.Ctx != nil {
+				tk.host.Ctx.Fire() // the context that is attached now (the host may have replaced the first one)
+			} else {
+				tk.ctx.Fire()
+			}
 		}
 		pre := asSend(tk.pend)
 		if pick.partner != nil {
